@@ -691,9 +691,19 @@ impl ProgCheck {
         };
         match res {
             CompileRes::Panic(pn) => {
-                // crashes are C04's subject; here the case cannot be judged
-                let _ = pn;
-                CaseOut::discard("compiler-panic")
+                // crashes are C04's subject; but like a program whose Go does not build, a program that
+                // exercises this property's feature (non-trivial by the rule) and makes the compiler panic has
+                // no behaviour at all: that fails the property here too (no case does on the unchanged tree)
+                if nontrivial(self.kind, &labels_in, &expected) {
+                    CaseOut::fail(
+                        format!("{}|panic|{}", self.id, pn.signature()),
+                        format!("the compiler panics at {}:{}: {}\n--- goml source\n{text}", pn.file, pn.line, pn.message),
+                        key,
+                    )
+                    .labelled(labels)
+                } else {
+                    CaseOut::discard("compiler-panic")
+                }
             }
             CompileRes::Err(e) if labels_in.contains("directed") => {
                 // hand-written programs are well-formed: a rejection is a failure of this phase
